@@ -57,7 +57,9 @@ def load_with(schema, text, specs):
 
 
 def key(o):
-    return o[:2] if o[0] == "ok" else ("reject",)
+    # the outcome of an accepted load is the value tree and the entries of
+    # the handler object returned with it (name, value), in order
+    return o[:3] if o[0] == "ok" else ("reject",)
 
 
 def judge(ctx, p, rng):
@@ -106,7 +108,9 @@ def judge(ctx, p, rng):
             for _ in (1, 2):
                 try:
                     cfg, _h = ld.loadFile(io.StringIO(p.text))
-                    outs.append(("ok", outcome.canon_value(cfg)))
+                    outs.append(("ok", outcome.canon_value(cfg),
+                                 [[h_, outcome.canon_value(v_)]
+                                  for h_, v_ in _h._handlers]))
                 except ZConfig.ConfigurationError:
                     outs.append(("reject",))
                 except Exception as e:  # noqa
@@ -115,7 +119,8 @@ def judge(ctx, p, rng):
             outs = [("reject",), ("reject",)]
         want = key(o_edit)
         for n_, o_ in enumerate(outs):
-            if o_[:1] != want[:1] or (o_[0] == "ok" and o_[1] != want[1]):
+            if o_[:1] != want[:1] or (o_[0] == "ok" and
+                                      tuple(o_[1:3]) != tuple(want[1:3])):
                 res.violate("reused-loader-differs-from-edit",
                             dict(case, load=n_ + 1),
                             list(want)[:1], list(o_)[:1],
@@ -182,7 +187,9 @@ def run_shard(ctx):
     n = 0
     for p in cc.pairs(ctx, N_MODELS[ctx.tier], TEXTS[ctx.tier],
                       systematic=True, fault_plan=fault_plan,
-                      p_bad_value=0.0):
+                      p_bad_value=0.0, handlers=True, handler_density=0.3):
+        if p.obs[0] == "ok" and p.obs[2]:
+            ctx.res.count("texts_with_handler_entries")
         judge(ctx, p, rng)
         if p.schema is not last_schema:
             last_schema = p.schema
